@@ -57,6 +57,11 @@ def c09a(tree, ob):
                 ob.site(SESS, call, '{}: {} is followed by the close check'.format(qual, src(call)[:50]))
             else:
                 ob.violate(SESS, qual, src(call), 'in-flight state is released without running the post-termination close check afterwards', call, path_text(wit))
+    close_check(tree, ob)
+
+
+def close_check(tree, ob):
+    ''' _check_sess_term closes iff terminating and the *full* idle predicate holds. '''
     fv = FuncView(tree, SESS, 'ContactHandler._check_sess_term')
     closes = at_least(method_calls(fv.func, 'close', 'self'), 1, 'close call in _check_sess_term', ob)
     for call in closes:
